@@ -59,18 +59,17 @@ Definition absCompare_u64 (a b : Z) : Z := mpz_cmpabs_ui a b.
 Definition absCompare_u32 (a b : Z) : Z := mpz_cmpabs_ui a (u32_to_u64 b).
 (*@ absCompare_i64 | src/kernel/gmp++/gmp++_int_compare.C | int32_t absCompare(const Integer &a, const int64_t b) | 17b3f3080ba9 *)
 Definition absCompare_i64 (a b : Z) : Z := mpz_cmpabs_ui a (to_u64 (abs_i64 b)).
-(* as written in the tree: std::abs on the int (wraps at INT32_MIN), THEN the cast to uint64_t (sign-extends) *)
+(* repaired body (frag/C01.fix-2.diff): widen to int64_t first, then std::abs *)
 (*@ absCompare_i32 | src/kernel/gmp++/gmp++_int_compare.C | int32_t absCompare(const Integer &a, const int32_t b) | 1a1e10f6ef1c *)
-Definition absCompare_i32 (a b : Z) : Z := mpz_cmpabs_ui a (to_u64 (abs_i32 b)).
-(* the repaired body (frag/C01.fix-2.diff): widen first, then std::abs *)
-Definition absCompare_i32_fixed (a b : Z) : Z := mpz_cmpabs_ui a (to_u64 (abs_i64 (i32_to_i64 b))).
+Definition absCompare_i32 (a b : Z) : Z := mpz_cmpabs_ui a (to_u64 (abs_i64 (i32_to_i64 b))).
+(* the body before the repair: std::abs on the int (wraps at INT32_MIN), THEN the cast to uint64_t (sign-extends) *)
+Definition absCompare_i32_tree (a b : Z) : Z := mpz_cmpabs_ui a (to_u64 (abs_i32 b)).
 (* template<class T> absCompare(const T a, const Integer& b) { return absCompare(b,a); }  per instantiated T *)
 (*@ absCompareT_u64 | src/kernel/gmp++/gmp++_int.h | int32_t absCompare( const T a, const Integer & b) | 7c80a3880539 *)
 Definition absCompareT_u64 (a b : Z) : Z := absCompare_u64 b a.
 Definition absCompareT_i64 (a b : Z) : Z := absCompare_i64 b a.
 Definition absCompareT_u32 (a b : Z) : Z := absCompare_u32 b a.
 Definition absCompareT_i32 (a b : Z) : Z := absCompare_i32 b a.
-Definition absCompareT_i32_fixed (a b : Z) : Z := absCompare_i32_fixed b a.
 Definition absCompareT_d (m e b : Z) : Z := absCompare_d b m e.
 
 (* ------------------------------------------------------------------ comparison operators (GENERATED by harness/c01_gen.py) *)
@@ -327,17 +326,17 @@ Definition opOr_u64 (x a : Z) : Z := let res := ctor_copy x in opOrEq_u64 res a.
 Definition opXor_u32 (x a : Z) : Z := let res := ctor_copy x in opXorEq_u32 res a.
 (*@ opOr_u32 | src/kernel/gmp++/gmp++_int_misc.C | Integer Integer::operator| (const uint32_t& a) const | c02b1fbdb1b1 *)
 Definition opOr_u32 (x a : Z) : Z := let res := ctor_copy x in opOrEq_u32 res a.
-(* as written in the tree: the low limb of |x| is and-ed with a (for x < 0 this is not the two's-complement AND
-   that operator&(const Integer&) and operator&=(uint64_t) compute) *)
-(*@ opAnd_u64 | src/kernel/gmp++/gmp++_int_misc.C | uint64_t Integer::operator& (const uint64_t & a) const | 415378c352f2 *)
-Definition opAnd_u64 (x a : Z) : Z := and_u64 (mpz_get_ui x) a.
-(*@ opAnd_u32 | src/kernel/gmp++/gmp++_int_misc.C | uint32_t Integer::operator& (const uint32_t& a) const | 5ff2909980ab *)
-Definition opAnd_u32 (x a : Z) : Z := to_u32 (and_u64 (mpz_get_ui x) (u32_to_u64 a)).
-(* the repaired bodies (frag/C01.fix-3.diff): the low limb is negated (mod 2^64) for a negative x *)
-Definition opAnd_u64_fixed (x a : Z) : Z :=
+(* repaired bodies (frag/C01.fix-3.diff): the low limb of |x|, negated mod 2^64 for a negative x, is and-ed with a *)
+(*@ opAnd_u64 | src/kernel/gmp++/gmp++_int_misc.C | uint64_t Integer::operator& (const uint64_t & a) const | 0 *)
+Definition opAnd_u64 (x a : Z) : Z :=
   let low := mpz_get_ui x in and_u64 (if priv_sign x <? 0 then neg_u64 low else low) a.
-Definition opAnd_u32_fixed (x a : Z) : Z :=
+(*@ opAnd_u32 | src/kernel/gmp++/gmp++_int_misc.C | uint32_t Integer::operator& (const uint32_t& a) const | 0 *)
+Definition opAnd_u32 (x a : Z) : Z :=
   let low := mpz_get_ui x in to_u32 (and_u64 (if priv_sign x <? 0 then neg_u64 low else low) (u32_to_u64 a)).
+(* the bodies before the repair: the low limb of |x| is and-ed with a (for x < 0 not the two's-complement AND that
+   operator&(const Integer&) and operator&=(uint64_t) compute) *)
+Definition opAnd_u64_tree (x a : Z) : Z := and_u64 (mpz_get_ui x) a.
+Definition opAnd_u32_tree (x a : Z) : Z := to_u32 (and_u64 (mpz_get_ui x) (u32_to_u64 a)).
 (*@ opNot | src/kernel/gmp++/gmp++_int_misc.C | Integer Integer::operator~ () const | 5bdec9596729 *)
 Definition opNot (x : Z) : Z := mpz_com x.
 
